@@ -39,7 +39,9 @@ def in_c01_domain(s, allow_empty_axis=False):
             vals = [e[k] for e in md]
             kinds = set()
             for v in vals:
-                if isinstance(v, bool):
+                if v is None:
+                    kinds.add('null')
+                elif isinstance(v, bool):
                     kinds.add('bool')
                 elif isinstance(v, int):
                     kinds.add('int')
@@ -54,6 +56,10 @@ def in_c01_domain(s, allow_empty_axis=False):
                         return 'list metadata outside the reserved form'
                 else:
                     return 'metadata kind %s' % type(v).__name__
+            if kinds == {'list', 'null'}:
+                kinds = {'list'}        # unknown for some ids: representable
+            elif 'null' in kinds:
+                return 'null metadata value outside a list category'
             if kinds == {'int', 'float'}:
                 kinds = {'float'}       # all numeric
             if len(kinds) > 1:
@@ -163,7 +169,9 @@ def write_config(r):
                             'save_table_pathlib']),
         'date': r.choice(['given', 'given', 'omitted']),
         'group_md': r.random() < .4,
-        'table_id': r.choice([None, None, 'tbl-1', 'таблица "x"/7']),
+        'table_id': r.choice([None, None, 'tbl-1', 'таблица "x"/7',
+                              r.choice([x for x in gen.NULLISH
+                                        if x.strip()])]),
         'generated_by': r.choice(['vm-check', 'gén "q" 1.0', 'a\\b']),
         'date_variant': r.randrange(len(DATES)),
         'use_format_fs': r.random() < .08,
@@ -341,6 +349,13 @@ def gen_case(ctx, index, empty_axis_ok=False):
         reloaded_group_metadata(ctx, t, index, ctx.id, desc)
         return t, src, desc, cfg, path, r
     spec = gen.gen_spec(r, max_n=7, max_m=7, allow_empty_text=True)
+    # a list-valued category may be unknown (None) for some of the ids
+    for md in (spec.obs_md, spec.samp_md):
+        if md and len(md) > 1 and r.random() < .15:
+            for k in [k for k, v in md[0].items() if isinstance(v, list)]:
+                for q in r.sample(range(len(md)), r.randint(1, len(md) - 1)):
+                    md[q][k] = None
+                ctx.count('list_category_with_null_entries')
     if empty_axis_ok and index % 9 == 0:
         # 0 x M or N x 0 tables (C04 only)
         if r.random() < .5:
@@ -391,7 +406,9 @@ def md_for_spec_compare(md):
     for e in md:
         d = {}
         for k, v in e.items():
-            d[k] = v
+            # "unknown for this id" (None, list categories only: see the
+            # domain predicate) is stored as a row of empty strings
+            d[k] = [] if v is None else v
         out.append(d)
     return out
 
@@ -442,7 +459,8 @@ def undo_custom(md_list, cat):
 
 
 RAGGED_VARIANTS = ['extra-on-later', 'missing-on-later', 'first-lacks',
-                   'disjoint-keys', 'extra-on-last-only']
+                   'disjoint-keys', 'extra-on-last-only',
+                   'flat-taxonomy', 'flat-taxonomy-with-null']
 
 
 def ragged_case(ctx, index, r, sig):
@@ -464,6 +482,9 @@ def ragged_case(ctx, index, r, sig):
     base = sorted(md[0])[0]
     variant = RAGGED_VARIANTS[index % len(RAGGED_VARIANTS)]
     later = r.randrange(1, k)
+    if variant.startswith('flat-taxonomy'):
+        return _flat_taxonomy_case(ctx, index, r, sig, spec, axis, md,
+                                   variant)
     if variant == 'extra-on-later':
         md[later]['vm confidence'] = 0.5
     elif variant == 'extra-on-last-only':
@@ -525,6 +546,63 @@ def ragged_case(ctx, index, r, sig):
                             'categories was written without complaint; the '
                             'file gives back %r for %r; case=%r' %
                             (got, exp, desc))
+    finally:
+        if os.path.exists(path):
+            os.remove(path)
+    ctx.case(desc, True)
+
+
+def _flat_taxonomy_case(ctx, index, r, sig, spec, axis, md, variant):
+    """The writer accepts a 'taxonomy' category given as flat ';'-separated
+    text and stores it as the list of its parts.  Whatever it accepts, the
+    file holds one entry per id, in id order, and each id's entry is its own
+    lineage; an id whose lineage is unknown (None) cannot be skipped."""
+    k = len(md)
+    pool = ['k__A; p__B; c__C', 'k__A;p__B', 'k__X', 'k__A; p__B; c__C; o__D',
+            'Unassigned', 'k__é; p__日本']
+    vals = [r.choice(pool) for _ in range(k)]
+    if len(set(vals)) == 1 and k > 1:
+        vals[-1] = 'k__Z; p__last'
+    if variant.endswith('with-null'):
+        for q in r.sample(range(k), r.randint(1, max(1, k - 1))):
+            vals[q] = None
+    for e, v in zip(md, vals):
+        e['taxonomy'] = v
+    if axis == 'observation':
+        spec.obs_md = md
+    else:
+        spec.samp_md = md
+    desc = {'table': spec.describe(), 'ragged': variant, 'axis': axis}
+    t = gen.build(ctx.biom, spec, 'dense')
+    ctx.count('ragged_metadata_cases')
+    path = ctx.path('flat%d.biom' % index)
+    try:
+        try:
+            with h5py.File(path, 'w') as f:
+                t.to_hdf5(f, 'vm', compress=r.random() < .5)
+        except Exception:
+            ctx.count('ragged_metadata_refused')
+            ctx.case(desc, True)
+            return
+        ctx.count('flat_taxonomy_written')
+        dec = h5spec.decode(path)
+        if dec['problems']:
+            raise Violation(sig + '/spec-violation', '%s; case=%r' %
+                            ('; '.join(dec['problems'][:4]), desc))
+        got = dec['obs_md' if axis == 'observation' else 'samp_md']
+        ids_f = dec['obs_ids' if axis == 'observation' else 'samp_ids']
+        if ids_f != spec.ids(axis) or len(got) != k:
+            raise Violation(sig + '/flat-taxonomy-entries', 'file has %d '
+                            'metadata entries for ids %r; case=%r' %
+                            (len(got), ids_f, desc))
+        for q, (g, v) in enumerate(zip(got, vals)):
+            gv = g.get('taxonomy')
+            ok = [gv == [], gv is None] if v is None else \
+                [gv == v, gv == [p.strip() for p in v.split(';')]]
+            if not any(ok):
+                raise Violation(sig + '/flat-taxonomy-entries', 'id %r has '
+                                'lineage %r, the file gives it %r; case=%r' %
+                                (spec.ids(axis)[q], v, gv, desc))
     finally:
         if os.path.exists(path):
             os.remove(path)
